@@ -22,10 +22,10 @@ def plan(pid, tier, seed):
     quick = tier == "quick"
     if quick:
         mc = [
-            _mc("Stats_MC_members_quick.cfg", 700),     # class bodies of <= 2 members (4 161 inputs)
-            _mc("Stats_MC_quick.cfg", 1500),            # one method, 821 modifier lists x 13 return sequences (10 674)
-            _mc("Stats_MC_count_quick.cfg", 700),       # 9 261 call models
-            _mc("Stats_MC_concept_quick.cfg", 500),     # 2 652 name lists
+            _mc("Stats_MC_members_quick.cfg", 400),     # class bodies of <= 2 members (4 161 inputs)
+            _mc("Stats_MC_quick.cfg", 900) ,            # one method, 821 modifier lists x 13 return sequences (10 674)
+            _mc("Stats_MC_count_quick.cfg", 400),       # 9 261 call models
+            _mc("Stats_MC_concept_quick.cfg", 300),     # 2 652 name lists
         ]
     else:
         mc = [
@@ -35,6 +35,7 @@ def plan(pid, tier, seed):
             _mc("Stats_MC_concept_quick.cfg", None),
             _mc("Stats_MC_thorough.cfg", 60000, 3600, True),
             _mc("Stats_MC_members_thorough.cfg", 40000, 3600, True),
+            _mc("Stats_MC_members3.cfg", None, 3600),
             _mc("Stats_MC_count_thorough.cfg", 40000, 3600, True),
             _mc("Stats_MC_count_overload.cfg", 20000, 3600),
             _mc("Stats_MC_concept_thorough.cfg", 20000, 3600, True),
@@ -44,7 +45,7 @@ def plan(pid, tier, seed):
         "needs_coca": True,
         "mc": mc,
         "gen": [],
-        "rand": 600 if quick else 20000,
+        "rand": 500 if quick else 20000,
         "trace": TRACE,
         "run_timeout": 6000,
     }
